@@ -247,6 +247,48 @@ CHECKS["C16"] = dict(
     technique="TLA+ model of decoder instances with bad and truncated inputs model-checked by TLC; replayed behaviours validated by TLC, replay determinism",
 )
 
+CHECKS["C15"] = dict(
+    level="model_checking",
+    text=("Record validation by TLC (Trace_Codec MODE=C15) over two kinds of observations of the real library. (a) About 4 400 messages of "
+          "395 definitions (boundary and random payloads, every field type, with and without source identity): the to_json() text is "
+          "parsed by an independent JSON parser, header and per-field id / value / raw value of the parsed object are compared with the "
+          "original's canonical rendering (bytes as hex, dates and times as ISO text, intervals as seconds), and from_json(text) must "
+          "encode to the same bytes. (b) Decoders with dump_to_file and eight dump filters (empty, by number, by id, mixed, matching "
+          "nothing) process a shuffled history incl. non-ASCII strings; the file read back after close() must be exactly the JSON text of "
+          "every returned message that matches the filter, one per line, in order (DumpMatch is the specification's). The model-checking "
+          "part is thin by nature (MC_RecordLaws: coherence of the record oracles); the evidence states the counts."),
+    note="Trusted: TLC; Python's json module as independent parser; canonical texts produced by the harness, compared by TLC; non-finite floats excepted.",
+    design="5/C15",
+    technique="TLA+ record predicates (Trace_Codec C15Verdict, DumpMatch) evaluated by TLC on recorded JSON round trips and dump files",
+)
+CHECKS["C17"] = dict(
+    level="model_checking",
+    text=("TLC checks on toy layouts that the oracle KeyBits agrees exactly when two payloads agree on every bit of every primary-key "
+          "field (MC_RecordLaws). All 141 fixed-layout definitions with primary-key fields (plus a sample of the others) are then decoded in "
+          "database order by one decoder process with network mapping on; per definition a group of observations - base payload, non-key "
+          "bits changed, every key field changed alone, other source / destination / priority, unit preferences, a second decoder "
+          "instance, a second process with another PYTHONHASHSEED, mapping off - is judged pairwise by TLC: equal hash <=> same definition "
+          "id and equal key bits computed by the specification from the payload and the database's primary-key flags; hash present iff "
+          "mapping is on. Model-checking part thin by nature; the evidence states the counts."),
+    note="Trusted: TLC; MD5 collision-freeness; key fields that are also match fields are not varied (they select another definition).",
+    design="5/C17",
+    technique="TLA+ operator KeyBits model-checked on toy layouts; pairwise record validation of real hashes by TLC",
+)
+CHECKS["C18"] = dict(
+    level="model_checking",
+    text=("The conversion table (quantity, requested unit, label, affine map, rounding grid) and the per-field frame rule are TLA+ "
+          "definitions (Trace_Codec); MC_RecordLaws checks that the table is a partial function and that the frame rule accepts untouched "
+          "fields and rejects changed attributes. All 166 fixed-layout definitions with a physical-quantity field x payloads (neutral, range "
+          "ends, absent, random) x 19 preference maps (each recognised unit in several letter cases, unrecognised units, quantities without "
+          "conversion, combinations) are decoded with and without the preferences and TLC judges every field pair: attributes and raw "
+          "value untouched, unit label exactly the table's, absent stays absent, unrelated fields and the header identical. The numeric "
+          "clause |value' - (a*value + b)| <= grid/2 is evaluated by the harness in exact rational arithmetic with the constants TLC "
+          "exports (TLC has 32-bit integers) and required by TLC per field."),
+    note="Trusted: TLC; exact rational evaluation of the exported affine maps (pi as a 15-digit enclosure, 2^-40 relative tolerance); preference texts lower-cased by the harness.",
+    design="5/C18",
+    technique="TLA+ conversion table and frame rule; TLC record validation of decodes with/without unit preferences",
+)
+
 NOT_YET = {
 }
 
